@@ -108,6 +108,7 @@ type Results struct {
 	stop            int32
 	failKeys        map[string]bool
 	Observations    []string
+	ObsPaths        [][]string
 }
 
 func (r *Results) noteInconclusive(msg string) {
@@ -647,6 +648,20 @@ func (e *Engine) deadlockFailure(st *State) *Failure {
 func (w *Worker) finishPath(st *State) {
 	e := w.e
 	n := atomic.AddInt64(&e.res.PathsFinished, 1)
+	if st.obs != nil {
+		var tr []string
+		for o := st.obs; o != nil; o = o.prev {
+			tr = append(tr, o.s)
+		}
+		for i, j := 0, len(tr)-1; i < j; i, j = i+1, j-1 {
+			tr[i], tr[j] = tr[j], tr[i]
+		}
+		e.res.mu.Lock()
+		if len(e.res.ObsPaths) < 256 {
+			e.res.ObsPaths = append(e.res.ObsPaths, tr)
+		}
+		e.res.mu.Unlock()
+	}
 	if n <= int64(e.cfg.SamplePaths) {
 		m := w.modelFor(st, nil)
 		s := map[string]interface{}{"outcome": "finished", "decisions": decStrings(st.decisionList(), 40), "model": m}
